@@ -76,7 +76,16 @@ func LRHuntGen() *rapid.Generator[*Grammar] {
 		var ref func(depth int) *Expr
 		ref = func(depth int) *Expr {
 			r := Ref(Pick(t, names, "refname"))
-			switch U(t, 15, "refwrap") {
+			switch U(t, 19, "refwrap") {
+			case 13:
+				// the operand of ? * & ! is itself wrapped: an action, a label, a +, another operator
+				return Opt(Action(nextID(), Seq(nullableThing(), r, term())))
+			case 14:
+				return Star(Label("g", Seq(nullableThing(), r, term())))
+			case 15:
+				return Opt(Plus(Seq(nullableThing(), r, term())))
+			case 16:
+				return Not(Opt(Action(nextID(), Seq(nullableThing(), r))))
 			case 0:
 				return Opt(r)
 			case 1:
